@@ -4,7 +4,7 @@ from __future__ import annotations
 from . import lang as L
 from . import shrink as S
 from .ref import ref_run
-from .tsu import build, run_wrapped, wrapped
+from .tsu import StepHeart, build, run_wrapped, wrapped  # noqa: F401
 
 
 def step_budget(g: L.Grammar, text: str) -> int:
